@@ -251,6 +251,9 @@ var ledgerSpecs = []ledgerSpec{
 		}
 		return []ledgerRun{
 			{"sealing-rules", ledger.Cfg{Nodes: []string{"G", "N1"}, Supply: sp(10, 0), Menu: []ledger.TxSpec{t8, t9, t10, te}, Crafted: []ledger.TxSpec{ms}, Tick: true, Props: only("C10")}, d, 0, 0},
+			// "neither data nor spice" with the data buffer allocated but empty, proposed and crafted by an outside sealer
+			{"empty-but-allocated-data", ledger.Cfg{Nodes: []string{"G", "N1"}, Supply: sp(10, 0), Menu: []ledger.TxSpec{{Label: "tee", From: "R", To: "A", EmptyData: true}, t1},
+				Crafted: []ledger.TxSpec{{Label: "mee", From: "R", To: "B", EmptyData: true}}, Tick: true, Props: only("C10")}, d, 0, 0},
 			// the same rules for data-only (contract) transactions and for vertices crafted by an outside sealer:
 			// genesis wallet as issuer of a contract / of a transfer, node wallet as issuer of a contract, self-sealed contract
 			{"sealing-rules-contracts+crafted", ledger.Cfg{Nodes: []string{"G", "N1"}, Supply: sp(10, 0),
